@@ -71,6 +71,8 @@ def job(jc, spec):
     hook.install()
     from androguard import misc
     misc.re = SymRe
+    from ..symre import wrap_compiled
+    wrap_compiled(misc)
     misc.os = SymOS
     chars = []
     win = None if full else windows(n)
